@@ -242,6 +242,7 @@ const (
 	scExec
 	scNotice
 	scCancelAndLost
+	scHandlerAndCancel // the handler rejects the first transaction while the caller cancels
 	scKinds
 )
 
@@ -279,7 +280,7 @@ func VH_C05_Stream(cause, npk, ahead, hmode int) {
 	env := vhStartEnv(sc)
 	defer env.stop()
 	ctx := newVCtx()
-	if cause == scCancel || cause == scCancelAndLost {
+	if cause == scCancel || cause == scCancelAndLost || cause == scHandlerAndCancel {
 		go func() {
 			ctx.cancel() // the start of this goroutine is itself an arbitrary scheduling point
 		}()
@@ -300,7 +301,7 @@ func VH_C05_Stream(cause, npk, ahead, hmode int) {
 		}
 		delivered++
 		inHandler = false
-		if cause == scHandler && delivered == 1 {
+		if (cause == scHandler || cause == scHandlerAndCancel) && delivered == 1 {
 			return errHandler
 		}
 		return nil
@@ -326,7 +327,7 @@ func VH_C05_Stream(cause, npk, ahead, hmode int) {
 
 	// ---- C06: the reason the stream ended is reported ----
 	switch cause {
-	case scHandler:
+	case scHandler, scHandlerAndCancel:
 		if delivered >= 1 {
 			vhAssert(err != nil, "a handler failure makes Stream return an error")
 		}
